@@ -2,20 +2,44 @@ use std::borrow::Cow;
 use std::collections::hash_map::Entry;
 use std::collections::{BTreeMap, HashMap, HashSet, VecDeque};
 use std::ops::Range;
+#[cfg(not(locustdb_verif))]
 use std::sync::atomic::{AtomicBool, Ordering};
+#[cfg(locustdb_verif)]
+use locustdb_simrt::sync::atomic::{AtomicBool, Ordering};
+#[cfg(not(locustdb_verif))]
 use std::sync::mpsc;
+#[cfg(locustdb_verif)]
+use locustdb_simrt::sync::mpsc;
+#[cfg(not(locustdb_verif))]
 use std::sync::{Arc, Condvar, Mutex, RwLock};
+#[cfg(locustdb_verif)]
+use locustdb_simrt::sync::{Arc, Condvar, Mutex, RwLock};
+#[cfg(not(locustdb_verif))]
 use std::thread;
+#[cfg(locustdb_verif)]
+use locustdb_simrt::thread;
+#[cfg(not(locustdb_verif))]
 use std::time::{Duration, Instant};
+#[cfg(locustdb_verif)]
+use {std::time::Duration, locustdb_simrt::time::Instant};
+#[cfg(not(locustdb_verif))]
 use std::time::{SystemTime, UNIX_EPOCH};
+#[cfg(locustdb_verif)]
+use locustdb_simrt::time::{SystemTime, UNIX_EPOCH};
 use std::{mem, str};
 
 use datasize::data_size;
 use futures::channel::oneshot;
+#[cfg(not(locustdb_verif))]
 use futures::executor::block_on;
+#[cfg(locustdb_verif)]
+use locustdb_simrt::block_on;
 use inner_locustdb::meta_store::PartitionMetadata;
 use locustdb_serialization::event_buffer::{ColumnBuffer, ColumnData, EventBuffer, TableBuffer};
+#[cfg(not(locustdb_verif))]
 use threadpool::ThreadPool;
+#[cfg(locustdb_verif)]
+use locustdb_simrt::ThreadPool;
 
 use crate::disk_store::storage::Storage;
 use crate::engine::query_task::{BasicTypeColumn, QueryTask};
@@ -68,7 +92,7 @@ impl InnerLocustDB {
                 let perf_counter = perf_counter.clone();
                 let lru = lru.clone();
                 let io_threads = opts.io_threads;
-                std::thread::spawn(move || {
+                thread::spawn(move || {
                     let (storage, wal, wal_size) =
                         Storage::new(&path, perf_counter, false, io_threads);
                     let tables = Table::restore_tables_from_disk(&storage, &lru);
@@ -308,7 +332,11 @@ impl InnerLocustDB {
                 })
             })
         });
+        #[cfg(locustdb_verif)]
+        locustdb_simrt::sync_point("ingest:after_wal_spawn");
         for (table, data) in events.tables {
+            #[cfg(locustdb_verif)]
+            locustdb_simrt::sync_point("ingest:before_table");
             let tables = self.tables.read().unwrap();
             let table = tables.get(&table).unwrap();
             let rows = data.len() as u64;
@@ -321,6 +349,8 @@ impl InnerLocustDB {
             table.ingest_homogeneous(columns);
         }
 
+        #[cfg(locustdb_verif)]
+        locustdb_simrt::sync_point("ingest:after_tables");
         if let Some(jh) = bytes_written_join_handle {
             let bytes_written = jh.join().unwrap();
             *wal_size += bytes_written;
@@ -335,6 +365,8 @@ impl InnerLocustDB {
         log::info!("Commencing WAL flush");
         let mut tracer = SimpleTracer::default();
         let span_wal_flush = tracer.start_span("wal_flush");
+        #[cfg(locustdb_verif)]
+        locustdb_simrt::sync_point("flush:start");
 
         // Acquire wal_size lock to block creation of new WAL segments and modifications of open buffers,
         // record the range of unflushed WAL entries, freeze table buffers, and reset WAL size.
@@ -364,6 +396,8 @@ impl InnerLocustDB {
             wal_condvar.notify_all();
         }
         tracer.end_span(span_freeze_buffers);
+        #[cfg(locustdb_verif)]
+        locustdb_simrt::sync_point("flush:after_freeze");
 
         // Iterate over all tables and create new partitions from frozen buffers.
         let span_batching = tracer.start_span("batching");
@@ -387,12 +421,16 @@ impl InnerLocustDB {
             }
         }
         tracer.end_span(span_batching);
+        #[cfg(locustdb_verif)]
+        locustdb_simrt::sync_point("flush:after_batching");
 
         // Persist new partitions
         if let Some(storage) = self.storage.as_ref() {
             storage.persist_partitions(new_partitions, &mut tracer);
         }
 
+        #[cfg(locustdb_verif)]
+        locustdb_simrt::sync_point("flush:after_persist_partitions");
         // Write new segments from compactions to storage and apply compaction in-memory
         let span_compaction = tracer.start_span("compaction");
         let (tx, rx) = mpsc::channel();
@@ -428,12 +466,20 @@ impl InnerLocustDB {
             tracer.push_tracer(compaction_tracer);
         }
         tracer.end_span(span_compaction);
+        #[cfg(locustdb_verif)]
+        locustdb_simrt::sync_point("flush:after_compaction");
 
         // Update metastore and clean up orphaned partitions and WAL segments
         if let Some(storage) = self.storage.as_ref() {
             storage.persist_metastore(unflushed_wal_ids.end, &mut tracer);
+            #[cfg(locustdb_verif)]
+            locustdb_simrt::sync_point("flush:after_persist_metastore");
             storage.delete_orphaned_partitions(partitions_to_delete, &mut tracer);
+            #[cfg(locustdb_verif)]
+            locustdb_simrt::sync_point("flush:after_delete_partitions");
             storage.delete_wal_segments(unflushed_wal_ids, &mut tracer);
+            #[cfg(locustdb_verif)]
+            locustdb_simrt::sync_point("flush:after_delete_wal");
         }
 
         tracer.end_span(span_wal_flush);
@@ -518,6 +564,8 @@ impl InnerLocustDB {
         let mut maybe_compaction = None;
 
         if let Some(partition) = table.batch() {
+            #[cfg(locustdb_verif)]
+            locustdb_simrt::sync_point("flush:after_batch");
             let columns: Vec<_> = partition
                 .clone_column_handles()
                 .into_iter()
@@ -560,6 +608,8 @@ impl InnerLocustDB {
         let mut tracer = SimpleTracer::default();
 
         let span_load_column_names = tracer.start_span("load_column_names");
+        #[cfg(locustdb_verif)]
+        locustdb_simrt::sync_point("compact:start");
         if !table.columns_names_loaded() {
             let column_names = self
                 .query_column_names(table.name())
@@ -654,6 +704,8 @@ impl InnerLocustDB {
             tracer.end_span(span_finalize_column);
         }
         tracer.end_span(span_build_columns);
+        #[cfg(locustdb_verif)]
+        locustdb_simrt::sync_point("compact:after_build_columns");
 
         let span_subpartition = tracer.start_span("subpartition");
         let (metadata, subpartitions) = subpartition(&self.opts, columns.clone());
@@ -663,6 +715,8 @@ impl InnerLocustDB {
         let span_compact_partitions = tracer.start_span("compact_partitions");
         table.compact(id, range.start, columns, parts);
         tracer.end_span(span_compact_partitions);
+        #[cfg(locustdb_verif)]
+        locustdb_simrt::sync_point("compact:after_table_compact");
 
         // write new subpartitions to disk and update in-memory metastore
         let span_prepare_compact = tracer.start_span("prepare_compact");
@@ -678,6 +732,8 @@ impl InnerLocustDB {
             (table.name().to_string(), to_delete)
         });
         tracer.end_span(span_prepare_compact);
+        #[cfg(locustdb_verif)]
+        locustdb_simrt::sync_point("compact:after_prepare_compact");
 
         (to_delete, tracer)
     }
